@@ -1046,11 +1046,14 @@ def _reciprocal(c, den):
     if not c.o.get('reciprocal_symbols', True):
         return None
     factors = []
-    if _is_var(den):
+
+    def base(t):
+        return _is_var(t) and t.decl().name() in c.vars     # harness inputs only, not abstraction symbols
+    if base(den):
         factors = [den]
     elif z3.is_app(den) and den.decl().kind() == z3.Z3_OP_MUL:
         for ch in den.children():
-            if _is_var(ch) or const_of(ch) is not None:
+            if base(ch) or const_of(ch) is not None:
                 factors.append(ch)
             else:
                 return None
